@@ -69,7 +69,15 @@ def handle1 (op : String) (args : List Sexp) : Option String := do
       | .ok g =>
         let u ← g.ungroup grp
         pure (reply (do let u ← u; pure (.tuple [vtableVal g, vtableVal u, t.toVal])))
-  | "pv", [t, x, y, z, agg] =>
+  | "pv", t :: x :: y :: z :: agg :: sp =>
+      -- optional 6th argument: how the x names are SPELLED in both calls (xs:s a plain string, xs:l a list, xs:t a tuple): `xyz` reads all
+      -- three as the same names (`as_tuple`, _dictable.py:1328) and so does `unpivot` (`as_list`), so the spelling does not enter the model
+      let _ ← match sp with
+        | [] => some ()
+        | [.atom "xs:s"] => if (strsOf x).map List.length == some 1 then some () else Option.none
+        | [.atom "xs:l"] => some ()
+        | [.atom "xs:t"] => some ()
+        | _ => Option.none
       let t ← Table.ofVal (← Val.ofSexp t)
       let x ← strsOf x; let y ← strOf y; let z ← strOf z; let agg ← aggOf agg
       let p ← t.pivot x y z agg
